@@ -6,6 +6,7 @@ import PfdlModel.Surface
 import PfdlModel.Denter
 import PfdlModel.Syntax
 import PfdlModel.Front
+import PfdlModel.Net
 /-! Line protocol driver: one JSON case per input line, one JSON result per output line. -/
 open Lean Pfdl
 
@@ -247,6 +248,115 @@ def runSched (j : Json) : Except String Json := do
   let d0 : DrvState := { s := Sched.init prog valid }
   let d ← ops.foldlM (stepOp ee fuel) d0
   pure (Json.mkObj [("calls", Json.arr d.calls)])
+
+/-! the net layer -/
+
+def noutJson : Net.NOut → Json
+  | .inv fn n => outJson (.inv fn n)
+  | .log o n flag => outJson (.log o n flag)
+  | .netUpd o => outJson (.netUpd o)
+  | .var x c => outJson (.var x c)
+  | .fire i => outJson (.fire i)
+  | .ret i ok => Json.arr #[.str (if ok then "RET" else "RETFALSE"), idJson i]
+
+def cbJson : Net.Cb → Json
+  | .taskStarted t => Json.arr #[.str "task_started", natJ t]
+  | .taskFinished t => Json.arr #[.str "task_finished", natJ t]
+  | .svcStarted i => Json.arr #[.str "service_started", natJ i]
+  | .svcFinished i => Json.arr #[.str "service_finished", natJ i]
+  | .cond _ a b c => Json.arr #[.str "condition_started", natJ a, natJ b, natJ c]
+  | .wloop _ a b c => Json.arr #[.str "while_loop_started", natJ a, natJ b, natJ c]
+  | .cloop l _ _ a b c => Json.arr #[.str "counting_loop_started", natJ l, natJ a, natJ b, natJ c]
+  | .ploop _ _ _ p t1 t2 c => Json.arr #[.str "parallel_loop_started", natJ p, natJ t1, natJ t2, natJ c]
+where natJ (n : Nat) : Json := Json.num (JsonNumber.fromNat n)
+
+/-- the net as a structure: places (alive, tokens), transitions in scan order with their arcs and callbacks -/
+def netJson (s : Net.NS) : Json :=
+  let natJ (n : Nat) : Json := Json.num (JsonNumber.fromNat n)
+  Json.mkObj [
+    ("places", Json.arr (s.places.map (fun p => Json.arr #[.bool p.alive, natJ p.tokens]))),
+    ("trans", Json.arr (s.trans.mapIdx (fun i t => Json.mkObj [
+        ("ins", Json.arr (t.ins.map natJ).toArray), ("outs", Json.arr (t.outs.map natJ).toArray),
+        ("cbs", Json.arr ((s.cbs[i]?.getD []).map (fun c => cbJson c.2)).toArray)]))),
+    ("start", natJ s.startPlace), ("final", natJ s.finalPlace),
+    ("tasks", Json.arr (s.tasks.map (fun a => Json.arr #[.str a.name, match a.parent with | some p => natJ p | none => .null, .bool a.inLoop]))),
+    ("svcs", Json.arr (s.svcs.map (fun a => Json.arr #[.str a.c.name, natJ a.ctx, .bool a.inLoop])))]
+
+def netRecord (op : Json) (r : Net.CallResult) : Json :=
+  let s := r.s
+  let natJ (n : Nat) : Json := Json.num (JsonNumber.fromNat n)
+  Json.mkObj [("op", op), ("ret", match r.ret with | some b => .bool b | none => .null),
+    ("out", Json.arr (s.out.map noutJson)),
+    ("running", .bool s.running),
+    ("awaited", Json.arr (s.awaited.filterMap (fun e => match e with | .svc u => some (idJson u.toNat) | _ => none)).toArray),
+    ("start_awaited", .bool (s.awaited.contains .start)),
+    ("other_awaited", natJ (s.awaited.filter (fun e => match e with | .setPlace _ => true | _ => false)).length),
+    ("marked", natJ s.marked), ("final_marking", .bool s.finalMarking),
+    ("marking", Json.arr ((s.places.mapIdx (fun i p => (i, p.tokens))).filter (fun e => e.2 != 0) |>.map (fun e => Json.arr #[natJ e.1, natJ e.2]))),
+    ("stuck", if s.oof then .str "outOfFuel" else match s.exc with | some _ => .str "raised" | none => .null),
+    ("exc", match s.exc with | some e => .str e | none => .null)]
+
+def netStepOp (ee : Net.EE) (fuel : Nat) (acc : Net.NS × Array Json) (op : Json) : Except String (Net.NS × Array Json) := do
+  let (s, calls) := acc
+  let name ← getStr (← field op "op")
+  let run (o : Net.Op) : Except String (Net.NS × Array Json) :=
+    let r := Net.step ee fuel s o
+    pure (r.s, calls.push (netRecord op r))
+  let noop : Except String (Net.NS × Array Json) :=
+    let s' := { s with out := #[], exc := none }
+    pure (s', calls.push (netRecord op { ret := none, s := s' }))
+  match name with
+  | "start" => run .start
+  | "finish" => do
+      let n ← getNat (← field op "n")
+      if n < s.announced.size then run (.finish n) else jerr s!"finish {n}: not announced"
+  | "junk" => do
+      let j ← getStr (← field op "junk")
+      match j with
+      | "dup" | "fromjson" => do
+          let n ← getNat (← field op "n")
+          match s.announced[n]? with
+          | some i => run (.fire (.svc (.id i)))
+          | none => jerr s!"dup {n}: not announced"
+      | "start_event" => run (.fire .start)
+      | _ => run .other
+  | "reg" => do
+      let k ← kindOf (← getStr (← field op "kind"))
+      let fn ← getNat (← field op "fn")
+      run (.register k fn)
+  | "attach" => do run (.attach (← getNat (← field op "o")))
+  | "detach" => do run (.detach (← getNat (← field op "o")))
+  | "wstart" | "wfinish" | "revar" => noop
+  | _ => jerr s!"op {name}"
+
+def bitsOf (j : Json) (k : String) : Except String (Array Bool) :=
+  match fieldOpt j k with
+  | some (.arr a) => a.mapM (fun b => match b with | .bool b => pure b | _ => jerr "bit")
+  | _ => pure #[]
+
+def runNet (j : Json) : Except String Json := do
+  let prog ← progOf (← field j "prog")
+  let answers ← (← getArr (← field j "answers")).toList.mapM (fun a => match a with
+    | .null => pure none
+    | a => do pure (some (← valOf a)))
+  let answersA := answers.toArray
+  let term : Option Val ← match fieldOpt j "terminator" with
+    | some t => do pure (some (← valOf t))
+    | none => pure none
+  let immA ← bitsOf j "imm"
+  let immO ← bitsOf j "imm_other"
+  let immS ← bitsOf j "imm_sf"
+  let bit (a : Array Bool) (k : Nat) : Bool := if a.size == 0 then false else a[k % a.size]!
+  let ee : Net.EE := {
+    ans := fun k => match answersA[k]? with | some v => v | none => term
+    imm := bit immA, immOther := bit immO, immSf := bit immS }
+  let fuel := match fieldOpt j "fuel" with | some (.num n) => n.mantissa.toNat | _ => 1000000
+  let valid := match fieldOpt j "valid" with | some (.bool b) => b | _ => true
+  let ops ← getArr (← field j "ops")
+  let s0 := Net.generate prog valid fuel
+  let (s, calls) ← ops.foldlM (netStepOp ee fuel) (s0, #[])
+  pure (Json.mkObj [("calls", Json.arr calls), ("net0", netJson s0), ("net1", netJson s),
+    ("gen_exc", match s0.exc with | some e => .str e | none => .null)])
 
 /-! validation requests -/
 
@@ -512,6 +622,7 @@ def handle (line : String) : String :=
     let k := match j.getObjVal? "k" with | .ok (.str s) => s | _ => "sched"
     let r := match k with
       | "sched" => runSched j
+      | "net" => runNet j
       | "check" => runCheck j
       | "expr" => runExpr j
       | "denter" => runDenter j
